@@ -171,7 +171,7 @@ func cmdCheck(args []string) int {
 				}
 				continue
 			}
-			if a.Status != "sat" {
+			if a.Status == "unsat" {
 				engineErr += fmt.Sprintf("vacuity: %s is %s (contradictory preconditions?)\n", a.Name, a.Status)
 			}
 			continue
@@ -234,7 +234,7 @@ func cmdCheck(args []string) int {
 				continue
 			}
 			viols = append(viols, violation{Obligation: name, Kind: "translate", Status: "error", Reason: "the function under contract can no longer be translated, so its obligations cannot be discharged: " + r.Err})
-		} else if reach[r.Key] == 0 && r.Returns > 0 {
+		} else if reach[r.Key] == 0 && unsatReturns(aggs, r.Key) == r.Returns && r.Returns > 0 {
 			engineErr += fmt.Sprintf("vacuity: no return of %s is reachable under its contract\n", r.Key)
 		}
 	}
@@ -334,4 +334,14 @@ func writeReplay(prop, name string, v violation) string {
 	b, _ := json.MarshalIndent(m, "", " ")
 	os.WriteFile(path, b, 0o644)
 	return path
+}
+
+func unsatReturns(aggs []*Agg, fn string) int {
+	n := 0
+	for _, a := range aggs {
+		if a.Func == fn && a.Cover && strings.Contains(a.Name, "cover-return") && a.Status == "unsat" {
+			n++
+		}
+	}
+	return n
 }
